@@ -175,6 +175,72 @@ func (c *c18) skipCase(t int, b []byte, tag interface{}) {
 	}})
 }
 
+// ---- skipping of unknown JSON members, nested to a given depth ----
+
+type jskip struct {
+	Depth int    `json:"depth"` // containers around the innermost value
+	Shape string `json:"shape"` // arr | obj | mix
+	Inner string `json:"inner"`
+	First bool   `json:"first"` // the unknown member comes before the known one
+}
+
+func (j jskip) text() []byte {
+	var sb strings.Builder
+	var closers []byte
+	for k := 0; k < j.Depth; k++ {
+		if j.Shape == "arr" || (j.Shape == "mix" && k%2 == 0) {
+			sb.WriteByte('[')
+			closers = append(closers, ']')
+		} else {
+			sb.WriteString(`{"a":`)
+			closers = append(closers, '}')
+		}
+	}
+	sb.WriteString(j.Inner)
+	for k := len(closers) - 1; k >= 0; k-- {
+		sb.WriteByte(closers[k])
+	}
+	if j.First {
+		return []byte(`{"unknown":` + sb.String() + `,"v":7}`)
+	}
+	return []byte(`{"v":7,"unknown":` + sb.String() + `}`)
+}
+
+func (c *c18) jskipCase(fx encFix, j jskip) {
+	c.cases++
+	text := j.text()
+	var rs []flavRes
+	run := func(flav string, f func(in []byte) ([]byte, error)) {
+		r := flavRes{Flav: flav, Out: B{}}
+		func() {
+			defer func() {
+				if e := recover(); e != nil {
+					r.St = "panic:" + fmt.Sprint(e)
+				}
+			}()
+			out, err := f(append([]byte(nil), text...))
+			if err != nil {
+				r.St, r.Cls = "err", errClass(err)
+				return
+			}
+			r.St, r.Out = "ok", B(append([]byte{}, out...))
+		}()
+		rs = append(rs, r)
+	}
+	tag := map[string]interface{}{"jskip": j}
+	c.add(job18{mark: c.marker(tag), run: func(fl string) {
+		if fl == "go" {
+			gv := j2tgo.NewBinaryConv(conv.Options{})
+			run("go", func(in []byte) ([]byte, error) { return gv.Do(context.Background(), fx.i64, in) })
+			return
+		}
+		cv := j2t.NewBinaryConv(conv.Options{})
+		run(fl, func(in []byte) ([]byte, error) { return cv.Do(context.Background(), fx.i64, in) })
+	}, emit: func() {
+		c.out.Emit(map[string]interface{}{"ev": "JSkip", "depth": j.Depth, "shape": j.Shape, "inner": j.Inner, "res": rs, "case": tag})
+	}})
+}
+
 // ---- text encoders, observed through t2j on a one-field struct ----
 
 type encRes struct {
@@ -327,6 +393,7 @@ func c18Main(args map[string]string) {
 					T int `json:"t"`
 					B B   `json:"b"`
 				} `json:"skip"`
+				JSkip *jskip `json:"jskip"`
 			}
 			json.Unmarshal(line, &probe)
 			idx++
@@ -339,6 +406,10 @@ func c18Main(args map[string]string) {
 			case probe.Skip != nil:
 				if idx-1 >= startAt {
 					c.skipCase(probe.Skip.T, probe.Skip.B, probe)
+				}
+			case probe.JSkip != nil:
+				if idx-1 >= startAt {
+					c.jskipCase(fx, *probe.JSkip)
 				}
 			default:
 				var jc J2TCase
@@ -432,6 +503,23 @@ func c18Main(args map[string]string) {
 			}
 		}
 		c.encCase(fx, "str", fmt.Sprintf("len%d", n), []byte(sb.String()))
+	}
+	// skipped JSON values (unknown members) nested up to and around the skippers' depth limit
+	if atoi(args["nenc"]) > 0 {
+		for _, depth := range []int{0, 1, 2, 64, 1000, 4000, 4090, 4091, 4092, 4093, 4094, 4095, 4096, 4097, 4098, 4099, 4100, 5000} {
+			for _, shape := range []string{"arr", "obj", "mix"} {
+				for _, inner := range []string{"{}", "[]", "{ }", "[ ]", "1", `"s"`, `{"a":1}`, "[1]", "null", `{"a":{}}`, "[[]]"} {
+					for _, first := range []bool{true, false} {
+						idx++
+						c.idx = idx - 1
+						if idx-1 < startAt {
+							continue
+						}
+						c.jskipCase(fx, jskip{Depth: depth, Shape: shape, Inner: inner, First: first})
+					}
+				}
+			}
+		}
 	}
 	c.flush()
 	fmt.Printf("c18 cases=%d events=%d\n", c.cases, out.n)
